@@ -15,25 +15,26 @@ import (
 // C16: anchors, attestations and registrations are permanent and collision-proof.
 type C16 struct {
 	Base
-	first      map[string]anchorGhost // iri → (id, time)
-	dataFirst  map[string]time.Time   // canonical bytes of the content hash → block time of its first successful anchoring (any message)
-	genesisIRI map[string]bool        // IRIs that came with the genesis (their content hashes are not known to the ghost)
-	firstTS    int
-	byID       map[string]string    // id → iri
-	att        map[string]time.Time // iri|attestor → time
-	reg        map[string]bool      // resolver|iri
-	scans      int
-	collided   strset // IRIs whose id was allocated at collision index >= 1 (detected via shared 4-byte prefix)
-	reanchors  int
-	varint     int
-	maxChain   int
-	chains     map[string]int // id prefix → number of IRIs sharing it
-	responses  int
-	regChecks  int
-	failedSame int
-	samples    []interface{}
-	MinLen     int // prefix length of the hasher under test (for chain statistics)
-	HashLen    int
+	first       map[string]anchorGhost // iri → (id, time)
+	dataFirst   map[string]time.Time   // canonical bytes of the content hash → block time of its first successful anchoring (any message)
+	genesisIRI  map[string]bool        // IRIs that came with the genesis (their content hashes are not known to the ghost)
+	firstTS     int
+	byID        map[string]string    // id → iri
+	att         map[string]time.Time // iri|attestor → time
+	reg         map[string]bool      // resolver|iri
+	scans       int
+	collided    strset // IRIs whose id was allocated at collision index >= 1 (detected via shared 4-byte prefix)
+	reanchors   int
+	varint      int
+	maxChain    int
+	chains      map[string]int // id prefix → number of IRIs sharing it
+	queryProbes int
+	responses   int
+	regChecks   int
+	failedSame  int
+	samples     []interface{}
+	MinLen      int // prefix length of the hasher under test (for chain statistics)
+	HashLen     int
 }
 
 type anchorGhost struct {
@@ -295,6 +296,37 @@ func (m *C16) AfterTx(e *eng.Engine, t *eng.TxRec) {
 		}
 	}
 	m.observe(e, t.Post, where, t.BlockTime, false)
+	// "never disappears" as a user sees it: every IRI this transaction anchored, attested or registered
+	// answers the chain's own AnchorByIRI query, with the first anchoring's timestamp
+	for _, msg := range t.Msgs {
+		var iris []string
+		switch x := msg.(type) {
+		case *data.MsgAnchor:
+			iris = append(iris, iriOf(x.ContentHash))
+		case *data.MsgAttest:
+			for _, h := range x.ContentHashes {
+				iris = append(iris, iriOf(h))
+			}
+		case *data.MsgRegisterResolver:
+			for _, h := range x.ContentHashes {
+				iris = append(iris, iriOf(h))
+			}
+		}
+		for _, iri := range iris {
+			g, known := m.first[iri]
+			if iri == "" || !known {
+				continue
+			}
+			m.queryProbes++
+			var r data.QueryAnchorByIRIResponse
+			err := e.App.Query("/regen.data.v2.Query/AnchorByIRI", &data.QueryAnchorByIRIRequest{Iri: iri}, &r)
+			if err != nil || r.Anchor == nil || r.Anchor.Iri != iri {
+				e.Violate("C16", "anchor-not-retrievable", fmt.Sprintf("%s: %s is anchored but AnchorByIRI does not return it (err %v, answer %+v)", where, iri, err, r.Anchor))
+			} else if r.Anchor.Timestamp == nil || !tsTime(r.Anchor.Timestamp.Seconds, r.Anchor.Timestamp.Nanos).Equal(g.t) {
+				e.Violate("C16", "anchor-query-timestamp", fmt.Sprintf("%s: AnchorByIRI(%s) answers timestamp %v, first anchoring was at %s", where, iri, r.Anchor.Timestamp, g.t))
+			}
+		}
+	}
 	post := t.Post.V()
 	for i, msg := range t.Msgs {
 		switch x := msg.(type) {
@@ -395,6 +427,7 @@ func (m *C16) Finish(e *eng.Engine, cov map[string]interface{}) {
 	cov["ids_in_varint_fallback"] = m.varint
 	cov["reanchors_of_collided_iris"] = m.reanchors
 	cov["responses_checked"] = m.responses
+	cov["anchor_by_iri_probes"] = m.queryProbes
 	cov["register_resolver_manager_checks"] = m.regChecks
 	cov["failed_txs_without_data_change"] = m.failedSame
 	cov["samples"] = m.samples
